@@ -586,7 +586,7 @@ func c11Get(r *core.Report, name, pos string, ps []paths.Path) {
 				}
 				if !nonEmpty {
 					ok = false
-					why = append(why, "removes without having found the queue non-empty since the last Wait(): a woken consumer takes from an empty queue")
+					why = append(why, "removes without having found the queue non-empty since the last Wait(): a woken consumer takes from an empty queue: "+pa.String())
 				}
 			}
 		}
